@@ -223,7 +223,7 @@ class PCA(sk_pca.PCA, DiffprivlibMixin):
             self.mean_ = mean(X, epsilon=self.epsilon / 2, bounds=self.bounds, axis=0, random_state=random_state,
                               accountant=BudgetAccountant())
 
-        X -= self.mean_
+        X = X - self.mean_  # not in place: X may be the caller's array
 
         if self.data_norm is None:
             warnings.warn("Data norm has not been specified and will be calculated on the data provided.  This will "
